@@ -28,10 +28,31 @@ def OPAQUE(what):
 
 
 class CaseEval(object):
-    def __init__(self, funcnode, absval, decide):
+    def __init__(self, funcnode, absval, decide, resolve=None, depth=0):
+        """resolve(call) -> the FunctionDef a call goes to (a module-level helper, a method of the same class), or None: such calls
+        are evaluated by running the callee on the abstract values of the arguments (up to 3 levels)"""
         self.fn = funcnode
         self._absval = absval
         self._decide = decide
+        self._resolve = resolve
+        self._depth = depth
+
+    def _call(self, e, env):
+        if self._resolve is None or self._depth >= 3 or e.keywords or any(isinstance(a, ast.Starred) for a in e.args):
+            return None
+        callee = self._resolve(e)
+        if callee is None:
+            return None
+        params = [a.arg for a in callee.args.args]
+        if params and params[0] in ("self", "cls") and isinstance(e.func, ast.Attribute):
+            params = params[1:]
+        if len(params) != len(e.args):
+            return None
+        env2 = dict((k, v) for k, v in env.items() if k.startswith("<"))
+        for p, a in zip(params, e.args):
+            env2[p] = self.value(a, env)
+        _, ret = CaseEval(callee, self._absval, self._decide, self._resolve, self._depth + 1).run(env2)
+        return None if ret is NORET else ret
 
     # ------------------------------------------------------------ expressions
     def value(self, e, env):
@@ -48,6 +69,10 @@ class CaseEval(object):
                 return self.value(e.orelse, env)
             a, b = self.value(e.body, env), self.value(e.orelse, env)
             return a if a == b else UNKNOWN
+        if isinstance(e, ast.Call):
+            r = self._call(e, env)
+            if r is not None:
+                return r
         return self._absval(e, env, self)
 
     def truth(self, t, env):
